@@ -14,16 +14,132 @@ from __future__ import annotations
 import ast
 import copy
 
-# private functions and methods of the reference tree: the rules may name these, so they are never dissolved
-KNOWN_HELPERS = frozenset({
-    "_check_input", "_close_current", "_compute", "_get_dmdelays", "_open", "_parse_data", "_read_string", "_scale_doublemad",
-    "_scale_gapper", "_scale_sn_1d", "_seek2hdr", "_seek_set", "_setup_templates", "_check_dm_input", "_check_freqs",
-    "_compute_stats", "_gen_pulse", "_get_pdelays", "_normalize_and_shift", "_scale_biweight", "_scale_diffcov",
-    "_scale_diffcov_1d", "_scale_gapper_1d", "_scale_iqr", "_scale_mad", "_scale_qn", "_scale_qn_1d", "_scale_sn",
-    "_set_chan_mask", "_set_custom_mask", "_set_digi_sigma", "_set_stats_mask", "_set_user_mask", "_spec_flat",
-    "_spec_gaussian", "_spec_gaussian_blobs", "_spec_poly", "_spec_power_law", "_spec_random", "_spec_scint",
-    "_spec_smooth_envelope",
+# every function and method name of the reference tree: the rules may name these, so they are never dissolved.  A function
+# with any other name - private or public - did not exist when the rules were written and carries no meaning for them.
+KNOWN_QUALNAMES = frozenset({
+    "apps.spp_clean:main", "apps.spp_digifil:main", "apps.spp_extract:bands", "apps.spp_extract:channels", "apps.spp_extract:main",
+    "apps.spp_extract:samples", "apps.spp_header:get", "apps.spp_header:main", "apps.spp_header:print", "apps.spp_header:update",
+    "base:Filterbank.__init__", "base:Filterbank.apply_channel_mask", "base:Filterbank.bandpass", "base:Filterbank.chan_stats",
+    "base:Filterbank.clean_rfi", "base:Filterbank.collapse", "base:Filterbank.compute_stats", "base:Filterbank.compute_stats_basic",
+    "base:Filterbank.dedisperse", "base:Filterbank.downsample", "base:Filterbank.extract_bands", "base:Filterbank.extract_chans",
+    "base:Filterbank.extract_samps", "base:Filterbank.fold", "base:Filterbank.header", "base:Filterbank.invert_freq", "base:Filterbank.read_block",
+    "base:Filterbank.read_chan", "base:Filterbank.read_dedisp_block", "base:Filterbank.read_plan", "base:Filterbank.remove_zerodm",
+    "base:Filterbank.requantize", "base:Filterbank.subband", "block:BaseBlock.__init__", "block:BaseBlock._check_input", "block:BaseBlock.data",
+    "block:BaseBlock.header", "block:BaseBlock.normalise", "block:BaseBlock.nsamples", "block:BaseBlock.pad_samples", "block:BaseBlock.plot",
+    "block:DMTBlock.__init__", "block:DMTBlock._check_dm_input", "block:DMTBlock.dms", "block:DMTBlock.ndms", "block:DMTBlock.plot",
+    "block:FilterbankBlock.__init__", "block:FilterbankBlock.dedisperse", "block:FilterbankBlock.dm", "block:FilterbankBlock.dmt_transform",
+    "block:FilterbankBlock.downsample", "block:FilterbankBlock.get_bandpass", "block:FilterbankBlock.get_tim", "block:FilterbankBlock.nchans",
+    "block:FilterbankBlock.plot", "block:FilterbankBlock.to_file", "core.filters:MatchedFilter.__init__", "core.filters:MatchedFilter._compute",
+    "core.filters:MatchedFilter._setup_templates", "core.filters:MatchedFilter.best_model", "core.filters:MatchedFilter.best_temp",
+    "core.filters:MatchedFilter.convs", "core.filters:MatchedFilter.data", "core.filters:MatchedFilter.get_box_width_spacing",
+    "core.filters:MatchedFilter.on_pulse", "core.filters:MatchedFilter.peak_bin", "core.filters:MatchedFilter.plot", "core.filters:MatchedFilter.snr",
+    "core.filters:MatchedFilter.temp_bank", "core.filters:MatchedFilter.temp_kind", "core.filters:MatchedFilter.temp_widths",
+    "core.filters:MatchedFilter.zscores", "core.filters:Template.__attrs_post_init__", "core.filters:Template.__repr__",
+    "core.filters:Template.__str__", "core.filters:Template.gen_boxcar", "core.filters:Template.gen_gaussian", "core.filters:Template.gen_lorentzian",
+    "core.filters:Template.get_model", "core.filters:Template.get_on_pulse", "core.filters:Template.plot", "core.kernels:add_online_moments",
+    "core.kernels:circular_pad_goodsize", "core.kernels:compute_online_moments", "core.kernels:compute_online_moments_basic",
+    "core.kernels:convolve_templates", "core.kernels:dedisperse", "core.kernels:detrend_1d", "core.kernels:disperse_block", "core.kernels:dmt_block",
+    "core.kernels:dmt_block_valid", "core.kernels:downsample_1d_mean", "core.kernels:downsample_2d_mean_flat", "core.kernels:extract_bpass",
+    "core.kernels:extract_tim", "core.kernels:fftconvolve", "core.kernels:fold", "core.kernels:form_interp_mspec", "core.kernels:form_mspec",
+    "core.kernels:fs_running_median", "core.kernels:invert_freq", "core.kernels:mask_channels", "core.kernels:nb_fft",
+    "core.kernels:nb_fft_good_size", "core.kernels:nb_ifft", "core.kernels:nb_irfft", "core.kernels:nb_rfft", "core.kernels:nb_roll",
+    "core.kernels:normalize_template", "core.kernels:pack1_8_big", "core.kernels:pack1_8_little", "core.kernels:pack1_8_vect",
+    "core.kernels:pack2_8_big", "core.kernels:pack2_8_little", "core.kernels:pack4_8_big", "core.kernels:pack4_8_little",
+    "core.kernels:remove_zerodm", "core.kernels:resample_tim", "core.kernels:roll_block", "core.kernels:roll_block_valid",
+    "core.kernels:simulate_ism", "core.kernels:subband", "core.kernels:sum_harmonics", "core.kernels:unpack1_8_big", "core.kernels:unpack1_8_little",
+    "core.kernels:unpack2_8_big", "core.kernels:unpack2_8_little", "core.kernels:unpack4_8_big", "core.kernels:unpack4_8_little",
+    "core.kernels:update_moments", "core.kernels:update_moments_basic", "core.rfi:RFIMask._set_chan_mask", "core.rfi:RFIMask._set_custom_mask",
+    "core.rfi:RFIMask._set_stats_mask", "core.rfi:RFIMask._set_user_mask", "core.rfi:RFIMask.apply_funcn", "core.rfi:RFIMask.apply_mask",
+    "core.rfi:RFIMask.apply_method", "core.rfi:RFIMask.from_file", "core.rfi:RFIMask.masked_fraction", "core.rfi:RFIMask.num_masked",
+    "core.rfi:RFIMask.plot", "core.rfi:RFIMask.to_file", "core.rfi:double_mad_mask", "core.rfi:iqrm_mask", "core.stats:ChannelStats.__add__",
+    "core.stats:ChannelStats.__init__", "core.stats:ChannelStats.kurtosis", "core.stats:ChannelStats.maxima", "core.stats:ChannelStats.mean",
+    "core.stats:ChannelStats.minima", "core.stats:ChannelStats.moments", "core.stats:ChannelStats.nchans", "core.stats:ChannelStats.nsamps",
+    "core.stats:ChannelStats.push_data", "core.stats:ChannelStats.skew", "core.stats:ChannelStats.std", "core.stats:ChannelStats.var",
+    "core.stats:_scale_biweight", "core.stats:_scale_diffcov", "core.stats:_scale_diffcov_1d", "core.stats:_scale_doublemad",
+    "core.stats:_scale_gapper", "core.stats:_scale_gapper_1d", "core.stats:_scale_iqr", "core.stats:_scale_mad", "core.stats:_scale_qn",
+    "core.stats:_scale_qn_1d", "core.stats:_scale_sn", "core.stats:_scale_sn_1d", "core.stats:downsample_1d", "core.stats:downsample_2d",
+    "core.stats:downsample_2d_flat", "core.stats:estimate_loc", "core.stats:estimate_scale", "core.stats:estimate_zscore",
+    "core.stats:running_filter", "core.stats:running_filter_fast", "foldedcube:FoldSlice.__init__", "foldedcube:FoldSlice.data",
+    "foldedcube:FoldSlice.get_profile", "foldedcube:FoldSlice.nbins", "foldedcube:FoldSlice.normalize", "foldedcube:FoldSlice.tsamp",
+    "foldedcube:FoldedData.__init__", "foldedcube:FoldedData._check_input", "foldedcube:FoldedData._get_dmdelays",
+    "foldedcube:FoldedData._get_pdelays", "foldedcube:FoldedData.centre", "foldedcube:FoldedData.data", "foldedcube:FoldedData.dm",
+    "foldedcube:FoldedData.get_freq_phase", "foldedcube:FoldedData.get_profile", "foldedcube:FoldedData.get_subband",
+    "foldedcube:FoldedData.get_subint", "foldedcube:FoldedData.get_time_phase", "foldedcube:FoldedData.header", "foldedcube:FoldedData.nbins",
+    "foldedcube:FoldedData.nsubbands", "foldedcube:FoldedData.nsubints", "foldedcube:FoldedData.period", "foldedcube:FoldedData.replace_nan",
+    "foldedcube:FoldedData.update_dm", "foldedcube:FoldedData.update_period", "foldedcube:Profile.__init__", "foldedcube:Profile.compute_mf",
+    "foldedcube:Profile.data", "foldedcube:Profile.tsamp", "fourierseries:FourierSeries.__init__", "fourierseries:FourierSeries._check_input",
+    "fourierseries:FourierSeries.binwidth", "fourierseries:FourierSeries.data", "fourierseries:FourierSeries.deredden",
+    "fourierseries:FourierSeries.form_spec", "fourierseries:FourierSeries.from_fft", "fourierseries:FourierSeries.from_spec",
+    "fourierseries:FourierSeries.header", "fourierseries:FourierSeries.ifft", "fourierseries:FourierSeries.multiply",
+    "fourierseries:FourierSeries.recon_prof", "fourierseries:FourierSeries.to_fft", "fourierseries:FourierSeries.to_spec",
+    "fourierseries:PowerSpectrum.__init__", "fourierseries:PowerSpectrum._check_input", "fourierseries:PowerSpectrum.bin2freq",
+    "fourierseries:PowerSpectrum.bin2period", "fourierseries:PowerSpectrum.data", "fourierseries:PowerSpectrum.freq2bin",
+    "fourierseries:PowerSpectrum.harmonic_fold", "fourierseries:PowerSpectrum.header", "fourierseries:PowerSpectrum.period2bin",
+    "header:Header.bandwidth", "header:Header.basename", "header:Header.chan_freqs", "header:Header.dec", "header:Header.dedispersed_header",
+    "header:Header.dtype", "header:Header.extension", "header:Header.fbottom", "header:Header.fcenter", "header:Header.fmax", "header:Header.fmin",
+    "header:Header.from_fbh5", "header:Header.from_inffile", "header:Header.from_pfits", "header:Header.from_sigproc", "header:Header.ftop",
+    "header:Header.get_dmdelays", "header:Header.get_dmsmearing", "header:Header.machine_id", "header:Header.make_inf",
+    "header:Header.mjd_after_nsamps", "header:Header.new_header", "header:Header.obs_date", "header:Header.obs_time", "header:Header.prep_outfile",
+    "header:Header.ra", "header:Header.telescope_id", "header:Header.to_dict", "header:Header.to_sigproc", "header:Header.to_string",
+    "header:Header.tobs", "io.bits:BitsInfo._set_digi_sigma", "io.bits:BitsInfo.bitfact", "io.bits:BitsInfo.bitorder", "io.bits:BitsInfo.digi_max",
+    "io.bits:BitsInfo.digi_mean", "io.bits:BitsInfo.digi_min", "io.bits:BitsInfo.digi_scale", "io.bits:BitsInfo.dtype", "io.bits:BitsInfo.itemsize",
+    "io.bits:BitsInfo.quantize", "io.bits:BitsInfo.to_dict", "io.bits:BitsInfo.unpack", "io.bits:pack", "io.bits:unpack", "io.fbh5:map_dimensions",
+    "io.fbh5:parse_header", "io.fileio:FileBase.__enter__", "io.fileio:FileBase.__exit__", "io.fileio:FileBase.__init__",
+    "io.fileio:FileBase._close_current", "io.fileio:FileBase._open", "io.fileio:FileBase.close", "io.fileio:FileBase.eos",
+    "io.fileio:FileBase.file_cur", "io.fileio:FileReader.__init__", "io.fileio:FileReader._seek2hdr", "io.fileio:FileReader._seek_set",
+    "io.fileio:FileReader.cread", "io.fileio:FileReader.creadinto", "io.fileio:FileReader.cur_data_pos_file",
+    "io.fileio:FileReader.cur_data_pos_stream", "io.fileio:FileReader.seek", "io.fileio:FileWriter.__init__", "io.fileio:FileWriter.cwrite",
+    "io.fileio:FileWriter.write", "io.fileio:allocate_buffer", "io.pfits:PFITSFile.__enter__", "io.pfits:PFITSFile.__exit__",
+    "io.pfits:PFITSFile.__init__", "io.pfits:PFITSFile.bitsinfo", "io.pfits:PFITSFile.filename", "io.pfits:PFITSFile.pri_hdr",
+    "io.pfits:PFITSFile.read_freqs", "io.pfits:PFITSFile.read_offsets", "io.pfits:PFITSFile.read_scales", "io.pfits:PFITSFile.read_subint",
+    "io.pfits:PFITSFile.read_subint_pol", "io.pfits:PFITSFile.read_subints", "io.pfits:PFITSFile.read_weights", "io.pfits:PFITSFile.sub_hdr",
+    "io.pfits:PrimaryHdr.__init__", "io.pfits:PrimaryHdr.backend", "io.pfits:PrimaryHdr.chan_dm", "io.pfits:PrimaryHdr.coord",
+    "io.pfits:PrimaryHdr.date_obs", "io.pfits:PrimaryHdr.freqs", "io.pfits:PrimaryHdr.header", "io.pfits:PrimaryHdr.ibeam",
+    "io.pfits:PrimaryHdr.location", "io.pfits:PrimaryHdr.obs_mode", "io.pfits:PrimaryHdr.observer", "io.pfits:PrimaryHdr.project_id",
+    "io.pfits:PrimaryHdr.receiver", "io.pfits:PrimaryHdr.source", "io.pfits:PrimaryHdr.telescope", "io.pfits:PrimaryHdr.tstart",
+    "io.pfits:SubintHdr.__init__", "io.pfits:SubintHdr._parse_data", "io.pfits:SubintHdr.azimuth", "io.pfits:SubintHdr.chan_bw",
+    "io.pfits:SubintHdr.channel_offset", "io.pfits:SubintHdr.freqs", "io.pfits:SubintHdr.header", "io.pfits:SubintHdr.nbits",
+    "io.pfits:SubintHdr.nchans", "io.pfits:SubintHdr.npol", "io.pfits:SubintHdr.nsamples", "io.pfits:SubintHdr.nsubint",
+    "io.pfits:SubintHdr.offs_sub", "io.pfits:SubintHdr.poln_state", "io.pfits:SubintHdr.poln_type", "io.pfits:SubintHdr.signint",
+    "io.pfits:SubintHdr.sub_hdr", "io.pfits:SubintHdr.subint_offset", "io.pfits:SubintHdr.subint_samples", "io.pfits:SubintHdr.subint_shape",
+    "io.pfits:SubintHdr.subint_width", "io.pfits:SubintHdr.tsamp", "io.pfits:SubintHdr.tsubint", "io.pfits:SubintHdr.zenith",
+    "io.pfits:SubintHdr.zero_off", "io.rescale:Rescale.__init__", "io.rescale:Rescale._compute_stats", "io.rescale:Rescale.execute",
+    "io.sigproc:FileInfo.from_dict", "io.sigproc:FileInfo.tend", "io.sigproc:StreamInfo.add_entry", "io.sigproc:StreamInfo.check_contiguity",
+    "io.sigproc:StreamInfo.cumsum_datalens", "io.sigproc:StreamInfo.get_combined", "io.sigproc:StreamInfo.get_info_list",
+    "io.sigproc:StreamInfo.time_gaps", "io.sigproc:_read_string", "io.sigproc:edit_header", "io.sigproc:encode_header", "io.sigproc:encode_key",
+    "io.sigproc:match_header", "io.sigproc:parse_header", "io.sigproc:parse_header_multi", "io.sigproc:parse_radec", "params:compute_dmdelays",
+    "params:compute_dmsmearing", "readers:FilReader.__init__", "readers:FilReader.bitsinfo", "readers:FilReader.chan_stride",
+    "readers:FilReader.filename", "readers:FilReader.header", "readers:FilReader.read_block", "readers:FilReader.read_dedisp_block",
+    "readers:FilReader.read_plan", "readers:FilReader.samp_stride", "readers:PFITSReader.__init__", "readers:PFITSReader.bitsinfo",
+    "readers:PFITSReader.filename", "readers:PFITSReader.header", "readers:PFITSReader.pri_hdr", "readers:PFITSReader.read_block",
+    "readers:PFITSReader.read_dedisp_block", "readers:PFITSReader.read_plan", "readers:PFITSReader.sub_hdr",
+    "readers:PulseExtractor.__attrs_post_init__", "readers:PulseExtractor.block_delay", "readers:PulseExtractor.disp_delay",
+    "readers:PulseExtractor.get_data", "readers:PulseExtractor.nsamps", "readers:PulseExtractor.nsamps_file", "readers:PulseExtractor.nstart",
+    "readers:PulseExtractor.nstart_file", "readers:PulseExtractor.pulse_toa_block", "readers:PulseExtractor.t_decimate",
+    "simulation.furby:Furby.from_file", "simulation.furby:Furby.plot", "simulation.furby:Furby.save", "simulation.furby:FurbyGenerator.__init__",
+    "simulation.furby:FurbyGenerator._compute_stats", "simulation.furby:FurbyGenerator._gen_pulse", "simulation.furby:FurbyGenerator.generate",
+    "simulation.furby:FurbyGenerator.hdr", "simulation.furby:FurbyGenerator.hdr_os", "simulation.furby:FurbyGenerator.nsamps_out",
+    "simulation.furby:FurbyGenerator.params", "simulation.furby:FurbyGenerator.tsamp_os", "simulation.furby:SpectralStructure.__init__",
+    "simulation.furby:SpectralStructure._normalize_and_shift", "simulation.furby:SpectralStructure._spec_flat",
+    "simulation.furby:SpectralStructure._spec_gaussian", "simulation.furby:SpectralStructure._spec_gaussian_blobs",
+    "simulation.furby:SpectralStructure._spec_poly", "simulation.furby:SpectralStructure._spec_power_law",
+    "simulation.furby:SpectralStructure._spec_random", "simulation.furby:SpectralStructure._spec_scint",
+    "simulation.furby:SpectralStructure._spec_smooth_envelope", "simulation.furby:SpectralStructure.foff",
+    "simulation.furby:SpectralStructure.generate", "simulation.furby:SpectralStructure.nchans", "simulation.furby:SpectralStructure.plot",
+    "timeseries:TimeSeries.__init__", "timeseries:TimeSeries._check_input", "timeseries:TimeSeries.apply_boxcar", "timeseries:TimeSeries.correlate",
+    "timeseries:TimeSeries.data", "timeseries:TimeSeries.deredden", "timeseries:TimeSeries.downsample", "timeseries:TimeSeries.fold",
+    "timeseries:TimeSeries.from_dat", "timeseries:TimeSeries.from_tim", "timeseries:TimeSeries.header", "timeseries:TimeSeries.normalise",
+    "timeseries:TimeSeries.nsamples", "timeseries:TimeSeries.pad", "timeseries:TimeSeries.resample", "timeseries:TimeSeries.rfft",
+    "timeseries:TimeSeries.to_dat", "timeseries:TimeSeries.to_tim", "utils:FrequencyChannels.__attrs_post_init__",
+    "utils:FrequencyChannels._check_freqs", "utils:FrequencyChannels.bandwidth", "utils:FrequencyChannels.fbottom", "utils:FrequencyChannels.fcenter",
+    "utils:FrequencyChannels.fch1", "utils:FrequencyChannels.foff", "utils:FrequencyChannels.from_pfits", "utils:FrequencyChannels.from_sig",
+    "utils:FrequencyChannels.ftop", "utils:FrequencyChannels.nchans", "utils:apply_along_axes", "utils:detect_file_type", "utils:duration_string",
+    "utils:gaussian", "utils:get_callerfunc", "utils:get_logger", "utils:nearest_factor", "utils:next2_to_n", "utils:pad_centre",
+    "utils:validate_path", "viz.styles:PlotTable.__init__", "viz.styles:PlotTable.add_entry", "viz.styles:PlotTable.plot",
+    "viz.styles:PlotTable.skip_line", "viz.styles:set_seaborn",
 })
+KNOWN_FUNCTIONS = frozenset(q.split(':', 1)[1].split('.')[-1] for q in KNOWN_QUALNAMES)
+KNOWN_HELPERS = frozenset(n for n in KNOWN_FUNCTIONS if n.startswith("_") and not n.startswith("__"))
 
 MAX_ROUNDS = 3
 _ALLOWED_DECORATORS = ("staticmethod", "classmethod", "njit", "numba.njit", "jit", "numba.jit")
@@ -44,8 +160,12 @@ def _decorator_name(d: ast.AST) -> str | None:
     return _dotted(d.func if isinstance(d, ast.Call) else d)
 
 
-def _is_transparent_name(name: str) -> bool:
-    return name.startswith("_") and not name.startswith("__") and name not in KNOWN_HELPERS
+def _is_transparent_name(name: str, module: str = "", owner: str | None = None) -> bool:
+    """A function the reference tree does not have under this module and (class-)qualified name."""
+    if name.startswith("__") and name.endswith("__"):
+        return False
+    qual = f"{owner}.{name}" if owner else name
+    return f"{module}:{qual}" not in KNOWN_QUALNAMES
 
 
 def _body_without_docstring(fn: ast.FunctionDef) -> list[ast.stmt]:
@@ -130,8 +250,9 @@ def _simple_arg(a: ast.AST) -> bool:
 
 
 class _Inliner:
-    def __init__(self, tree: ast.Module):
+    def __init__(self, tree: ast.Module, module: str = ""):
         self.tree = tree
+        self.module = module
         self.module_funcs = {st.name: st for st in tree.body if isinstance(st, ast.FunctionDef)}
         self.classes = {st.name: st for st in tree.body if isinstance(st, ast.ClassDef)}
         self.counter = 0
@@ -150,14 +271,20 @@ class _Inliner:
                     return m
         return None
 
+    def _owner_of(self, m: ast.FunctionDef) -> str | None:
+        for c in self.classes.values():
+            if m in c.body:
+                return c.name
+        return None
+
     def _callee(self, call: ast.Call, caller: ast.FunctionDef, cls: ast.ClassDef | None):
         """-> (FunctionDef, receiver expression or None) for a call to a transparent helper of this module."""
         f = call.func
-        if isinstance(f, ast.Name) and _is_transparent_name(f.id) and f.id in self.module_funcs:
+        if isinstance(f, ast.Name) and f.id in self.module_funcs and _is_transparent_name(f.id, self.module):
             if any(isinstance(n, ast.Name) and n.id == f.id and isinstance(n.ctx, ast.Store) for n in ast.walk(caller)):
                 return None
             return self.module_funcs[f.id], None
-        if isinstance(f, ast.Attribute) and _is_transparent_name(f.attr) and isinstance(f.value, ast.Name):
+        if isinstance(f, ast.Attribute) and isinstance(f.value, ast.Name) and not (f.attr.startswith("__") and f.attr.endswith("__")):
             target_cls = None
             if f.value.id in ("self", "cls") and cls is not None:
                 target_cls = cls
@@ -165,12 +292,15 @@ class _Inliner:
                 target_cls = self.classes[f.value.id]
             if target_cls is not None:
                 m = self._method(target_cls, f.attr)
-                if m is not None:
+                owner = self._owner_of(m) if m is not None else None
+                if m is not None and _is_transparent_name(f.attr, self.module, owner):
                     return m, f.value
+                if m is not None:
+                    return None
             else:
                 # `obj._helper(...)` on another object: a private method name defined by exactly one class of this module
                 owners = [m for c in self.classes.values() for m in c.body if isinstance(m, ast.FunctionDef) and m.name == f.attr]
-                if len(owners) == 1 and f.attr not in self.module_funcs and \
+                if len(owners) == 1 and f.attr not in self.module_funcs and _is_transparent_name(f.attr, self.module, self._owner_of(owners[0])) and \
                         not any(_decorator_name(d) in ("staticmethod", "classmethod") for d in owners[0].decorator_list):
                     return owners[0], f.value
         return None
@@ -237,7 +367,8 @@ class _Inliner:
             for n in ast.walk(st):
                 ast.copy_location(n, call)
                 n.end_lineno, n.end_col_offset = call.end_lineno, call.end_col_offset
-        self.inlined.append(callee.name)
+        owner_ = self._owner_of(callee)
+        self.inlined.append(f"{owner_}.{callee.name}" if owner_ else callee.name)
         return out
 
     # ---- statements -----------------------------------------------------------------------------------
@@ -513,14 +644,14 @@ def _replace_in(st: ast.AST, field: str, old: ast.AST, new: ast.AST) -> None:
     _replace(getattr(st, field), old, new)
 
 
-def apply(tree: ast.Module) -> list[str]:
+def apply(tree: ast.Module, module: str = "") -> list[str]:
     """Dissolve transparent helpers of `tree` into their callers (in place). -> names inlined (one per call site)."""
     if _has_walrus(tree):
         for n in ast.walk(tree):
             if isinstance(n, ast.FunctionDef):
                 n.body = _desugar_walrus(n.body)
         ast.fix_missing_locations(tree)
-    inl = _Inliner(tree)
+    inl = _Inliner(tree, module)
     inl.run()
     aliases = 0
     for n in ast.walk(tree):
